@@ -488,3 +488,5 @@ def run(chk):
     check_tr(chk, F)
     check_policy_ord(chk, F)
     check_ms_clone(chk, F)
+    from . import wholedesc
+    chk.guard("R19.7", "whole-descriptors", wholedesc.check_identity, chk, F, "R19.7")
